@@ -656,7 +656,7 @@ class HistogramBase(abc.ABC):
         HistogramBase._reshape_data
         """
         if old_frequencies is not None and old_frequencies.shape[axis] > 0:
-            if isinstance(bin_map, int):
+            if isinstance(bin_map, (int, np.integer)):
                 new_index: List[Union[int, slice]] = [
                     slice(None) for i in range(self.ndim)
                 ]
